@@ -129,9 +129,10 @@ fn keep() -> impl Strategy<Value = RKeep> {
         prop::collection::vec(
             prop::collection::btree_set(prop::sample::select(vec!["a", "b", "c", "dd"]), 1..3)
                 .prop_map(|s| s.into_iter().map(str::to_string).collect::<BTreeSet<_>>()),
-            0..2,
+            // 0–3 tag lists: a snapshot is kept if it carries all tags of at least ONE of them
+            0..4,
         ),
-        prop::collection::vec((0u8..4, 1usize..3), 0..2),
+        prop::collection::vec((0u8..4, 1usize..3), 0..3),
         prop::bool::weighted(0.1),
     )
         .prop_map(|(counts, within, tags, ids, none)| RKeep {
@@ -355,7 +356,8 @@ fn run(c: &Case, _ctx: &Ctx) -> Outcome {
             c.keep.within.iter().flatten().any(RSpan::is_calendar),
             "calendar_span",
         )
-        .class_if(!c.keep.tags.is_empty() || !c.keep.ids.is_empty(), "tags_or_ids");
+        .class_if(!c.keep.tags.is_empty() || !c.keep.ids.is_empty(), "tags_or_ids")
+        .class_if(c.keep.tags.len() >= 2, "several_keep_tag_lists");
     for r in &active {
         out = out.class(format!("rule_{}", RULES[*r]));
     }
